@@ -580,8 +580,8 @@ def _known_f17(facet, case, violation):
 KNOWN = {"F17-order-across-handover": _known_f17}
 
 FACETS = [
-    Facet("history", None, check_history, classify_history, quick=300, thorough=5000, runner=history_runner),
-    Facet("history-list", ops_strategy, check_history, classify_history, quick=500, thorough=10000),
+    Facet("history", None, check_history, classify_history, quick=300, thorough=15000, runner=history_runner),
+    Facet("history-list", ops_strategy, check_history, classify_history, quick=500, thorough=40000),
     Facet("handover", handover_strategy, check_handover, classify_handover, quick=400, thorough=30000),
     Facet("handover-enum", None, check_handover, classify_handover, quick=1, thorough=1, runner=handover_enum_runner),
 ]
